@@ -90,9 +90,9 @@ SolveClauses(e) ==
   ELSE [NoError |-> TRUE, ResultWellFormed |-> TRUE,
         OperandsUnchanged |-> e.ck2 = e.ck,
         SolutionOnConstrained |-> \A i \in VSet(e.D) :
-            FxNear(e.y[i], FxInt(e.ytrue[i]), IF e.method = "penalize" THEN TolPenal ELSE FxZero),
+            FxNear(e.y[i], FxInt(e.ytrue[i]), IF e.method \in {"penalize", "penalize-default"} THEN TolPenal ELSE FxZero),
         SolutionOnKept |-> \A i \in (1..e.n) \ VSet(e.D) :
-            FxNear(e.y[i], FxInt(e.ytrue[i]), IF e.method = "penalize" THEN TolPenal ELSE TolSolve)]
+            FxNear(e.y[i], FxInt(e.ytrue[i]), IF e.method \in {"penalize", "penalize-default"} THEN TolPenal ELSE TolSolve)]
 
 \* mpc: x[S] = T x[M] + g; stub solver returns z for the unknowns (U, M)
 MpcClauses(e) ==
